@@ -32,7 +32,8 @@ def tclass(st, ft):
 
 
 def one(ctx, x, st, ft, method, tag, carrier="arr") -> None:
-    inp = gen.arr(x) if carrier == "arr" else list(x) if carrier == "list-none" else gen.nanlist(x)
+    inp = (gen.arr(x) if carrier == "arr" else list(x) if carrier == "list-none" else gen.nanlist(x) if carrier == "list-nan"
+           else gen.carried(ctx.rng, x, poisons=(0.0, 100.0, -100.0, 1.0), p_masked=1.0))
     kw = {"inp": inp, "suspect_threshold": st, "fail_threshold": ft, "method": method}
     o, adm = client.expect(ctx, "C09", "qartod.spike_test", kw,
                            lambda: models.spike(x, st, ft, method),
@@ -74,7 +75,7 @@ def run(ctx) -> None:
         st, ft = rng.choice(pool), rng.choice(pool)
         if (st in ds and st) or (ft in ds and ft):
             ctx.count("spike.on_threshold_cases")
-        one(ctx, x, st, ft, method, "rand", carrier=rng.choice(["arr", "list-none", "list-nan"]))
+        one(ctx, x, st, ft, method, "rand", carrier=rng.choice(["arr", "list-none", "list-nan", "masked-finite"]))
 
     if ctx.shard == 0:
         for bad in ("Average", "avg", "", "diff", None, 3):
